@@ -89,6 +89,8 @@ def build(run):
         out += [{"sid": sid, "md": mdi, "itype": "dx", "dom": 1, "cd": None} for sid in (np.int32(1), (np.int64(2), 3), np.int64(3)) for mdi in (0, 1)]
         out += [{"sid": sid, "md": mdi, "itype": "dpatch", "dom": 1, "cd": None} for sid in ("everywhere", 1, (1, 2)) for mdi in (0, 1)]
         out += [{"sid": sid, "md": mdi, "itype": "dx", "dom": 1, "cd": k} for sid in ("everywhere", 1, (1, 2)) for mdi in (0, 1) for k in (0, 1)]
+        # nested coordinate derivatives (second shape derivatives, in the same and in two different directions)
+        out += [{"sid": sid, "md": 0, "itype": "dx", "dom": 1, "cd": k} for sid in ("everywhere", 1) for k in ((0, 1), (1, 1), (1, 0))]
         return out
 
     def mk_form(tpls, shared=False):
@@ -104,7 +106,8 @@ def build(run):
             meas = ufl.Measure(t["itype"], domain=dom, subdomain_id=t["sid"], metadata=MDS[t["md"]])
             form = e * meas
             if t["cd"] is not None:
-                form = ufl.derivative(form, ufl.SpatialCoordinate(dom), dirs[t["cd"]])
+                for k_ in (t["cd"] if isinstance(t["cd"], tuple) else (t["cd"],)):
+                    form = ufl.derivative(form, ufl.SpatialCoordinate(dom), dirs[k_])
             integrals += list(form.integrals())
         return ufl.Form(integrals)
 
@@ -112,9 +115,14 @@ def build(run):
         def op_hook(w, e, comp, env):
             if isinstance(e, C.CoordinateDerivative):
                 inner, o1, o2, o3 = e.ufl_operands
-                tag = f"D<{hash((repr(o1), repr(o2), repr(o3))) & 0xffffff:x}>"
+                # nested coordinate derivatives are second (third, ...) Gateaux derivatives w.r.t. the coordinate field in fixed directions: they commute,
+                # so a chain is identified by the MULTISET of its (w, v, cd) triples (this is also how the grouping identifies chains)
+                tags = tuple(sorted(getattr(w, "_cd_tags", ()) + (f"{hash((repr(o1), repr(o2), repr(o3))) & 0xffffff:x}",)))
+                tag = "D<" + ",".join(tags) + ">"
                 w2 = w.with_layers(w.layers)
-                prev = w.terminal_hook
+                w2._cd_tags = tags
+                prev = getattr(w, "_cd_base_hook", w.terminal_hook)
+                w2._cd_base_hook = prev
 
                 def th(ww, t, c, en, prev=prev, tag=tag):
                     if isinstance(t, C.Coefficient):
@@ -231,7 +239,7 @@ def build(run):
     T = templates(quick)
 
     def lab(ts):
-        return " + ".join(f"{t['itype']}{'@m2' if t['dom'] == 2 else ''}({t['sid']}){'[md%d]' % t['md'] if t['md'] else ''}{'[cd%d]' % t['cd'] if t['cd'] is not None else ''}" for t in ts)
+        return " + ".join(f"{t['itype']}{'@m2' if t['dom'] == 2 else ''}({t['sid']}){'[md%d]' % t['md'] if t['md'] else ''}{'[cd%s]' % (t['cd'],) if t['cd'] is not None else ''}" for t in ts)
 
     # singles and all pairs, chunked
     pairs = [(a, b) for a in T for b in T]
